@@ -1,0 +1,38 @@
+//! Verification-only observation points (`cfg(folo_verif)`), used by the model-checking harnesses
+//! in `/verif`. With the cfg off this module does not exist and no call site is compiled.
+//!
+//! The hooks identify an awaiter by its address and never dereference it.
+
+#![allow(missing_docs, missing_debug_implementations, unreachable_pub, clippy::exhaustive_structs, reason = "verification-only")]
+
+use std::sync::OnceLock;
+
+#[derive(Clone, Copy)]
+pub struct Hooks {
+    /// The non-atomic interior of the awaiter at this address is about to be accessed
+    /// (`true` = exclusive access).
+    pub inner_access: fn(usize, bool),
+    /// The awaiter at this address is being dropped.
+    pub dropped: fn(usize),
+}
+
+static HOOKS: OnceLock<Hooks> = OnceLock::new();
+
+/// Installs the hooks; the first installation wins for the lifetime of the process.
+pub fn install(hooks: Hooks) {
+    let _ = HOOKS.set(hooks);
+}
+
+#[inline]
+pub(crate) fn inner_access<T>(awaiter: *const T, exclusive: bool) {
+    if let Some(h) = HOOKS.get() {
+        (h.inner_access)(awaiter as usize, exclusive);
+    }
+}
+
+#[inline]
+pub(crate) fn dropped<T>(awaiter: *const T) {
+    if let Some(h) = HOOKS.get() {
+        (h.dropped)(awaiter as usize);
+    }
+}
